@@ -61,6 +61,17 @@ def extra_jobs(ctx):
                              pre + z, False))
                 jobs.append(('S', ((ts, 'always'), (2, 'never')),
                              pre + z, False))
+    # the same lagging schedules (and calls that end off the process's
+    # grid) with a global_time_precision: all times lie on the 10^-4 grid,
+    # so every process is still handed exactly its interval
+    cut = [[('run_for', 0.5, False)] * 3 + [('update', 2)],
+           [('run_for', 0.5, False), ('run_for', 1, False),
+            ('run_for', 0.5, True)]]
+    for ts in sched.T_ALL:
+        for sc in [pre + z for pre in lag for z in zero[:2]] + cut:
+            jobs.append(('S', ((ts, 'always'),), sc, False, 0, 1, 4))
+            jobs.append(('S', ((ts, 'always'), (1, 'always')), sc, False,
+                         0, 1, 4))
     return jobs
 
 
@@ -226,10 +237,7 @@ def replay(case):
         fw.preload_forkserver()
         run_para(case['job'], acc)
     elif case.get('family') == 'S':
-        C01.run_s(('S', case['procs'], case['script'],
-                   case.get('nested', False),
-                   case.get('engine', {}).get('initial_global_time', 0)),
-                  acc, MONITORS)
+        C01.run_s(C01.s_job_of(case), acc, MONITORS)
     else:
         afamily.replay(case, acc, MONITORS)
     return [v for exs in acc.viol_examples.values() for v in exs]
@@ -237,3 +245,6 @@ def replay(case):
 
 RULE += (
     " Also: processes that ask for 1e17, 2**60 or an infinite timestep under forced calls; a compartment deleted and generated anew under the same key in one tick (process / step operators, old process in flight) - the new process's timesteps tile exactly its life.")
+
+RULE += (
+    ' Lagging schedules and calls that end off the process grid (run_for(0.5) against timesteps 0.5-3) are also run with global_time_precision = 4.')
